@@ -139,6 +139,7 @@ def run(ctx):
     # salt first + twins
     twins(ctx, P)
     sig.salt_fed_at_every_hasher(ctx, P)
+    sig.text_mode_selection(ctx, P)
 
 
 FEED = [('new_hasher', r'HashAlgorithm::new_hasher$'), ('key-frame', r'signature::types::serialize_for_hashing$'), ('id-body', r'Serialize::to_writer$'),
